@@ -22,6 +22,7 @@ func c02(c *core.Check) {
 	c02Keys(c)
 	c02Discarded(c)
 	c02LastLine(c)
+	c02Forward(c)
 }
 
 func isResumeStack(t types.Type) bool {
@@ -494,4 +495,62 @@ func ptrLin(v ssa.Value, depth int) (core.Lin, bool) {
 		}
 	}
 	return core.Lin{T: map[string]int64{fmt.Sprintf("%p", v): 1}}, true
+}
+
+// c02Forward: a continuation is never moved forward past content that was not laid out.
+func c02Forward(c *core.Check) {
+	p := c.Prog
+	r := c.Rule("R4", "a resume point is never replaced by a later one: no ResumeStack is built with a key K on a path guarded by `k < K`, k being the key of the resume point already computed (the children between k and K, and the rest of child k, would never be laid out)", 1)
+	n := 0
+	for _, fn := range p.FuncsOfPkg("html/layout") {
+		fn := fn
+		core.Instrs(fn, func(in ssa.Instruction) {
+			mu, ok := in.(*ssa.MapUpdate)
+			if !ok || !isResumeStack(mu.Map.Type()) {
+				return
+			}
+			n++
+			b := mu.Block()
+			if len(b.Preds) != 1 {
+				return
+			}
+			pb := b.Preds[0]
+			ifi, ok := pb.Instrs[len(pb.Instrs)-1].(*ssa.If)
+			if !ok {
+				return
+			}
+			cmp, ok := ifi.Cond.(*ssa.BinOp)
+			if !ok {
+				return
+			}
+			onTrue := pb.Succs[0] == b
+			var small, large ssa.Value
+			switch {
+			case cmp.Op == token.LSS && onTrue, cmp.Op == token.GEQ && !onTrue:
+				small, large = cmp.X, cmp.Y
+			case cmp.Op == token.GTR && onTrue, cmp.Op == token.LEQ && !onTrue:
+				small, large = cmp.Y, cmp.X
+			default:
+				return
+			}
+			// large is the new key, small is the key of an existing resume point
+			if large != mu.Key {
+				return
+			}
+			ex, ok := small.(*ssa.Extract)
+			if !ok || ex.Index != 0 {
+				return
+			}
+			call, ok := ex.Tuple.(*ssa.Call)
+			if !ok || call.Call.StaticCallee() == nil || call.Call.StaticCallee().Name() != "Unpack" {
+				return
+			}
+			key := core.FuncName(fn) + " | resume point moved forward to " + p.MapKeyExprAt(fn, mu.Pos())
+			r.Fail(key, p.Pos(mu.Pos()), "the resume point already computed (key "+exprName(small)+") is replaced by a later one ("+exprName(large)+") when it lies before it: the content in between is never laid out")
+		})
+	}
+	if n == 0 {
+		r.Anchor("ResumeStack literals in html/layout")
+	}
+	r.OK("html/layout | ResumeStack literals examined", "-", fmt.Sprintf("%d literals", n))
 }
